@@ -101,6 +101,22 @@ def reference(ex, fam, trait, shape, kind_key, variant_level=True):
         # transparent: only that field is used; otherwise every non-ignored field
         pass
     per_variant_u = {}
+    if shape.kind == "enum" and fam == "Default":
+        # only the selected variant is visited: the one carrying #[default], or the only variant of a single-variant enum
+        vs = shape.variants()
+        lv = shape.lenvar(roots["variants"])
+        pres = [z3.And(ev, R.present(vb + ".hattrs.default")) for _, vb, ev in vs]
+        count = z3.Sum([z3.If(p, 1, 0) for p in pres])
+        for (v, vb, ev), p in zip(vs, pres):
+            sel = z3.And(gate, z3.Or(z3.And(count == 1, p), z3.And(count == 0, lv == 1, v == 0) if v == 0 else z3.BoolVal(False)))
+            uv = R.helper_chain(vb + ".hattrs", fam, trait, u, alive=sel)
+            uv = R.items_chain(vb + ".hattrs", kind_key, uv, alive=sel)
+            has_value = z3.And(R.present(vb + ".hattrs.default"), R.present(vb + ".hattrs.default.<Some>.0.value"))
+            for (fv, fvb, fb, ex_) in fields:
+                if fv != v:
+                    continue
+                emit_field(R, ex, fam, trait, fb, kind_key, uv, z3.And(ex_, sel, z3.Not(has_value)), T(), [])
+        return R
     if shape.kind == "enum":
         for v, vb, ev in shape.variants():
             uv = u
@@ -146,6 +162,7 @@ BUILDERS = [
     ("debug-struct", "build_debug_for_struct", "Debug", None, "struct", {"e": "e", "hattrs": "hattrs", "fields": "fields"}),
     ("debug-enum", "build_debug_for_enum", "Debug", None, "enum", {"e": "e", "hattrs": "hattrs", "variants": "variants"}),
     ("default-struct", "build_default_for_struct", "Default", None, "struct", {"e": "e", "hattrs": "hattrs", "fields": "fields"}),
+    ("default-enum", "build_default_for_enum", "Default", None, "enum", {"e": "e", "hattrs": "hattrs", "variants": "variants"}),
     ("deref", "build_deref_for_struct", "Deref", None, "struct", {"e": "e", "fields": "fields"}),
     ("binary-op", "build_binary_op::{closure#0}", "Op", None, "struct", {"e": "e", "fields": "fields"}),
     ("assign-op", "build_assign_op::{closure#0}", "Op", None, "struct", {"e": "e", "fields": "fields"}),
